@@ -9,7 +9,8 @@ WALK_IDS = '{"e", "z", "o", "a", "m7f", "m80", "ff", "az", "aa", "x81", "x80", "
 PROBES = ('{"empty", "one", "nc1", "short_ok", "short_tr", "short_tr2", "long_ok", "long_tr", "long_small", "long_nosz", '
           '"long_lz", "long2_ok", "long2_tr", "long4", "long8_lz", "list", "list_after", "f8"}')
 # (builder type, raw prefix id) combinations the containers are replayed under
-KINDS = [("hash", '""'), ("hash", '"adr"'), ("phash", '"p"'), ("rlp", '""')]
+KINDS = [("hash", '""', "adv"), ("hash", '"adr"', "adv"), ("phash", '"p"', "adv"), ("rlp", '""', "adv"),
+         ("hash", '""', "scoredb")]      # the last: containers of system SCOREs through service/scoredb
 
 
 def run(ctx):
@@ -36,6 +37,10 @@ def model_check(ctx):
         ctx.exhaustive = True
     ctx.check_coverage(r, ["ArrPut", "ArrPop", "ArrSet", "ArrGet", "ArrSize", "DictSet", "DictDelete", "DictGet",
                            "DictBadArity", "VarSet", "VarDelete", "VarGet"])
+    # the same for the containers of system SCOREs (service/scoredb: type part 0x00/0x01/0x02, one shared name)
+    ctx.model_check("data", "MC_Containers", "MC_Containers.cfg",
+                    constants={"MaxOps": ctx.pick(4, 6), "MaxLen": 2, "Universe": '"scoredb"', "BType": '"hash"'},
+                    timeout=1800, label="scoredb universe")
     # sensitivity guard: the same universe under the non-injective raw builder must collide
     g = ctx.tlc("data", "MC_ContainersRaw", "MC_ContainersRaw.cfg", expect_violation=True, count=False,
                 timeout=600, label="sensitivity guard (raw builder collides)")
@@ -62,9 +67,9 @@ def replay(ctx):
                              timeout=600)
         # 4. container behaviours: all of depth 2 + random walks per key-builder kind
         cb = []
-        for i, (bt, raw) in enumerate(KINDS):
-            cs = {"BType": '"%s"' % bt, "BRawId": raw}
-            if i == 0 or not ctx.quick():
+        for i, (bt, raw, uni) in enumerate(KINDS):
+            cs = {"BType": '"%s"' % bt, "BRawId": raw, "Universe": '"%s"' % uni}
+            if i in (0, 4) or not ctx.quick():
                 cb += ctx.behaviours("data", "Gen_Containers", "Gen_Containers.cfg",
                                      constants=dict(cs, MaxOps=2, Depth=2), timeout=900)
             wl = ctx.pick(16, 30)
@@ -95,13 +100,15 @@ def finish(ctx):
              "the part alphabet, all 2-call sequences with two-argument calls and two builders derived from one, SplitKeys probes), distinct by its "
              "(op,type,raw,from,parts) sequence; container case = one TLC-generated call sequence on 2 arrays, "
              "2 dictionaries and 2 variables sharing one store (all of depth 2 + random walks per key-builder "
-             "kind), distinct by its call sequence and builder kind, non-trivial if it has >= 2 writes",
+             "kind and for the scoredb containers of system SCOREs), distinct by its call sequence and builder kind, "
+             "non-trivial if it has >= 2 writes",
         assumptions=["SHA3-256 is collision free (hashes are symbolic terms in the spec)",
                      "key parts are compared as byte strings: Go values of different types with equal ToBytes() "
                      "form are the same part by design",
                      "raw prefixes (NewHashKey prefix, PrefixedHashBuilder first key) are compared only among "
                      "prefixes of equal length; the RawBuilder is excluded (not injective by design)",
-                     "store backends: in-memory map and the real MPT (trie_manager.NewMutable over MapDB)"])
+                     "store backends: in-memory map, the real MPT (trie_manager.NewMutable over MapDB) and a contract account "
+                     "of a real world state next to a second contract that performs the same calls with other values"])
 
 
 def raise_guard(g):
